@@ -47,7 +47,7 @@ CLAUSES = {
     "writes after closing fail with WebSocketClosedError": "write_after_close_fails + close_sent_terminated",
 }
 PARALLEL = True
-CASE_TIMEOUT = 60
+CASE_TIMEOUT = 120
 LEVEL_NOTE = ("model = close state machine of one endpoint (server handler / client connection) incl. receive loop, "
               "close timer and ping task; all clause theorems are for every event sequence; tie = exact per-step event "
               "comparison with the real handler/client over fake transport + virtual clock")
